@@ -101,11 +101,19 @@ fn create_component_ref_gid(
     // The coeffs are f64; pack directly in f64 to avoid an intermediate narrowing
     // to f32 that can flip rounding ties (https://github.com/googlefonts/fontc/issues/1966).
 
+    // glyf stores component offsets as int16. `OtRound<i16>` saturates silently, which would
+    // move the component somewhere visibly different; report the glyph instead.
+    let (x, y): (f64, f64) = (e.ot_round(), f.ot_round());
+    let fits_i16 = |v: f64| (i16::MIN as f64..=i16::MAX as f64).contains(&v);
+    if !fits_i16(x) || !fits_i16(y) {
+        return Err(GlyphProblem::ComponentOffsetOutOfRange);
+    }
+
     let component = Component::new(
         gid,
         Anchor::Offset {
-            x: e.ot_round(),
-            y: f.ot_round(),
+            x: x as i16,
+            y: y as i16,
         },
         Transform {
             xx: F2Dot14::from_f64(a),
